@@ -160,6 +160,7 @@ pub fn families(prop: &str, tier: Tier) -> Vec<Cfg> {
             b.io = IoMenu::benign();
             b.broker.receive_max = vec![Some(9), Some(65535), None];
             b.broker.reorder_window = 1;
+            b.broker.fifo = true;
             b.max_ops = if q { 14 } else { 22 };
             b.max_conns = 1;
             b.max_reqs = if q { 10 } else { 12 };
@@ -268,6 +269,97 @@ pub fn families(prop: &str, tier: Tier) -> Vec<Cfg> {
                 v.push(b);
             }
             v
+        }
+        "C13" => {
+            let mut a = Cfg::base("C13-cancel-at-every-await-point");
+            a.props = vec!["C13"];
+            a.twin = Some(Twin::Cancel);
+            a.drain_script = true;
+            a.prune = false;
+            a.cancel = true;
+            a.cancel_connect = false;
+            a.ops = vec![OpK::Pub1, OpK::Pub2, OpK::Sub, OpK::Unsub, OpK::Poll, OpK::Recv, OpK::Drive];
+            a.io = IoMenu::partial();
+            a.io.all_partials_upto = if q { 6 } else { 16 };
+            a.broker.script = vec![inpub(1, 11), inpub(2, 12)];
+            a.broker.reorder_window = 1;
+            a.broker.fifo = true;
+            a.max_ops = if q { 4 } else { 5 };
+            a.max_conns = 1;
+            a.max_reqs = 3;
+            a.dev = 2;
+            // two successive cancellations, fewer operation kinds
+            let mut b = Cfg::base("C13-successive-cancellations");
+            b.props = vec!["C13"];
+            b.twin = Some(Twin::Cancel);
+            b.drain_script = true;
+            b.prune = false;
+            b.cancel = true;
+            b.cancel_connect = false;
+            b.ops = vec![OpK::Pub1, OpK::Pub2, OpK::Sub, OpK::Poll];
+            b.io = IoMenu::benign();
+            b.io.write_pending = true;
+            b.io.flush_pending = true;
+            b.io.read_pending = true;
+            b.broker.script = vec![inpub(2, 12)];
+            b.broker.reorder_window = 1;
+            b.broker.fifo = true;
+            b.max_ops = if q { 5 } else { 6 };
+            b.max_conns = 1;
+            b.max_reqs = 3;
+            b.dev = if q { 2 } else { 3 };
+            // disconnect() is documented as cancel-safe as well: cancel it (and only it) at every await point
+            let mut c = Cfg::base("C13-cancelled-disconnect");
+            c.props = vec!["C13"];
+            c.twin = Some(Twin::Cancel);
+            c.drain_script = true;
+            c.prune = false;
+            c.cancel = true;
+            c.cancel_connect = false;
+            c.cancel_only = Some(vec![OpK::Disconnect]);
+            c.ops = vec![OpK::Pub1, OpK::Poll, OpK::Disconnect];
+            c.io = IoMenu::partial();
+            c.broker.reorder_window = 1;
+            c.broker.fifo = true;
+            c.max_ops = 4;
+            c.max_conns = 1;
+            c.max_reqs = 2;
+            c.dev = 2;
+            vec![a, b, c]
+        }
+        "C15" => {
+            let mut a = Cfg::base("C15-partial-and-pending-transport-answers");
+            a.props = vec!["C15"];
+            a.twin = Some(Twin::Fragment);
+            a.drain_script = true;
+            a.prune = false;
+            a.ops = vec![OpK::Pub0, OpK::Pub1, OpK::Pub2, OpK::Sub, OpK::Poll, OpK::DropConn];
+            a.io = IoMenu::partial();
+            a.broker.script = vec![inpub(1, 11), inpub(2, 12)];
+            a.broker.reorder_window = 1;
+            a.broker.fifo = true;
+            a.max_ops = if q { 4 } else { 5 };
+            a.max_conns = 2;
+            a.max_reqs = 3;
+            a.dev = if q { 2 } else { 3 };
+            // every chunking of a short inbound stream: each read may return any shorter prefix
+            let mut b = Cfg::base("C15-all-chunkings-of-inbound-stream");
+            b.props = vec!["C15"];
+            b.twin = Some(Twin::Fragment);
+            b.drain_script = true;
+            b.prune = false;
+            b.ops = vec![OpK::Poll];
+            b.io = IoMenu::benign();
+            b.io.read_partial = true;
+            b.io.all_partials_upto = 32;
+            b.broker.script = if q { vec![inpub(1, 11), inpub(0, 0)] } else { vec![inpub(1, 11), inpub(2, 12), inpub(0, 0)] };
+            b.broker.reorder_window = 1;
+            b.broker.fifo = true;
+            b.max_ops = if q { 3 } else { 4 };
+            b.max_conns = 1;
+            b.max_reqs = 0;
+            b.dev = 40;
+            vec![a, b]
         }
         "C16" => {
             let mut a = Cfg::base("C16-progress-after-partials-cancels-faults");
